@@ -40,8 +40,9 @@ ASSUMPTIONS = [
     "a query object created before a clear() and first evaluated after it is outside the model (never generated)",
 ]
 RULE = ("exhaustive histories up to length 4/5 over {new Emp, new Mgr, new Org, drop, sweep, query} + fixed families "
-        "(re-evaluated query objects, diamond hierarchy, clear) + random histories of 4-18 operations over 8 classes, "
-        "relations, explicit-domain queries; non-trivial = at least one query returned at least one instance; "
+        "(re-evaluated query objects, diamond hierarchy, clear, classes defined in the middle of the history after "
+        "their ancestors were queried, temporaries created and discarded back to back) + random histories of 4-18 "
+        "operations over 9 classes plus classes defined on the way, relations, explicit-domain queries; non-trivial = at least one query returned at least one instance; "
         "distinct by case text")
 
 
@@ -83,11 +84,37 @@ def generate(rng, tier, n):
                             ["dropq", 1], ["query", c]], ("family", "reeval"), "exhaustive"))
         cases.append(_case([["new", 0, c], ["new", 1, c], ["query", c], ["clear"], ["new", 2, c], ["query", c],
                             ["drop", 1], ["query", c]], ("family", "clear"), "exhaustive"))
+    # classes that come into existence in the middle of a history (late import, dynamically created class):
+    # the ancestors were queried before, the new class gets instances, the ancestors are queried again
+    for parent, ancestors in ((0, (0,)), (2, (2, 0)), (3, (3, 2, 0)), (4, (4, 0)), (5, (5, 4, 0)), (1, (1, 0))):
+        for anc in ancestors:
+            cases.append(_case([["new", 0, parent], ["query", anc], ["defclass", 20, parent], ["new", 1, 20],
+                                ["query", anc], ["query", 20], ["defclass", 21, 20], ["new", 2, 21], ["query", anc],
+                                ["query", 20], ["drop", 1], ["query", anc]], ("family", "late-class"), "exhaustive"))
+            cases.append(_case([["mkq", 1, anc], ["defclass", 20, parent], ["new", 0, 20], ["evalq", 1],
+                                ["defclass", 21, parent], ["new", 1, 21], ["query", anc]],
+                               ("family", "late-class"), "exhaustive"))
+    # temporaries created and discarded back to back (ids are recycled before the next sweep)
+    for c in (1, 2, 3, 7):
+        for k in (2, 5, 9):
+            cases.append(_case([["churn", 0, k, c], ["new", 50, c], ["query", c], ["churn", 60, k, c], ["query", 0],
+                                ["drop", 50], ["churn", 80, k, c], ["new", 95, c], ["query", c]],
+                               ("family", "churn"), "exhaustive"))
+    for c in (2, 3, 7):
+        for k in (1, 4):
+            cases.append(_case([["churn", 0, k, c], ["new", 50, c], ["sweep"], ["rel", 4, 50, 50], ["query", c],
+                                ["churn", 60, k, c], ["new", 70, c], ["query", 0], ["rel", 5, 70, 50], ["query", c]],
+                               ("family", "churn"), "exhaustive"))
     for _ in range(n):
         g = _sg.Gen(rng, classes=rng.choice([(1, 2, 3), (1, 2, 3), (0, 1, 2, 3, 4, 5, 6, 7), (2, 3), (4, 5, 6, 7)]))
-        ops = g.history(rng.randint(4, 18), w_query=3.0, w_clear=0.3)
+        ops = g.history(rng.randint(4, 18), w_query=3.0, w_clear=0.3, w_defclass=rng.choice([0.0, 0.8, 1.5]),
+                        w_churn=rng.choice([0.0, 0.0, 0.6]))
         ops.append(["query", rng.choice([0, 2])])
         tags = ["random"]
+        if any(op[0] == "defclass" for op in ops):
+            tags.append("late-class")
+        if any(op[0] == "churn" for op in ops):
+            tags.append("churn")
         if any(op[0] == "clear" for op in ops):
             tags.append("clear")
         if any(op[0] == "evalq" for op in ops):
